@@ -454,6 +454,26 @@ func (w *World) BuildBlock(h uint32) *BlockSpec {
 					payout = append(payout, w.G.Miners[0])
 				}
 			}
+			// the same stranger twice, as the 25th and a 26th record: each record of an
+			// entry block is judged on its own staker id, however often the id occurs
+			if kindS == 11 || kindS == 12 {
+				stranger := make([]byte, 32)
+				r.Read(stranger)
+				if zero := w.ZeroPEG(3); len(zero) > 0 && kindS == 12 {
+					stranger = zero[r.Intn(len(zero))]
+				}
+				if cnt >= 2 {
+					// 24 eligible records, then the stranger's two: the set is complete only if one
+					// of the stranger's records is admitted
+					ids[cnt-1] = stranger
+					ids = append(ids, stranger)
+					signers = append(signers, w.G.Users[0].Fs)
+					var fresh factom.FAAddress
+					copy(fresh[:], shaBytes(fmt.Sprintf("spr-payout-%d-%d", w.G.Seed, h)))
+					payout = append(payout, fresh.String()) // a 26th payout address, distinct from the 25
+					w.Rep.Count("spr:stranger-twice")
+				}
+			}
 			// a staker that holds exactly as much PEG as the 100th of the list but is not on it (the
 			// rule is membership of the list, not a balance threshold): in place of the 25th record,
 			// or as an extra one
